@@ -66,12 +66,12 @@ def marshal_contract(st, typ, fields, opt):
     if m == "marshalPacket":
         lines.append("//@ func (*%s).marshalPacket" % st)
         lines.append("//@   property C06")
-        lines.append("//@   content C06")
+        lines.append("//@   content")
         lines.append("//@   results out, payload, err")
     else:
         lines.append("//@ func (*%s).MarshalBinary" % st)
         lines.append("//@   property C06")
-        lines.append("//@   content C06")
+        lines.append("//@   content")
         lines.append("//@   results out, err")
     req = ["p != nil"]
     for k, f in fields:
@@ -170,7 +170,7 @@ def harness(st, fields, opt):
     name = "verifRoundTrip" + st[len("sshFxp"):]
     um = opt["unmarshal"]
     go = []
-    con = ["//@ func " + name, "//@   property C06", "//@   content C06", "//@   results err"]
+    con = ["//@ func " + name, "//@   property C06", "//@   content", "//@   results err"]
     req = ["p != nil && q != nil && p != q"]
     post = []
     for k, f in fields:
@@ -226,7 +226,7 @@ def filestat_contracts():
     ]
     L = ["//@ func marshalFileStat",
          "//@   property C06",
-         "//@   content C06",
+         "//@   content",
          "//@   requires fileStat != nil",
          "//@   ensures samearray(result, b) || fresh(result)",
          "//@   ensures %s == 0 ==> len(result) == %s + %s" % (EXT, L0, fixed),
@@ -322,7 +322,7 @@ package sshfx
 
 //@ func (*Buffer).AppendUint8
 //@   property C06
-//@   content C06
+//@   content
 //@   requires b != nil
 //@   ensures len(b.b) == old(len(b.b)) + 1 && b.b[old(len(b.b))] == v && b.off == old(b.off) && b.Err == old(b.Err)
 //@   ensures samearray(b.b, old(b.b)) || fresh(b.b)
@@ -331,7 +331,7 @@ package sshfx
 
 //@ func (*Buffer).AppendUint32
 //@   property C06
-//@   content C06
+//@   content
 //@   requires b != nil
 //@   ensures len(b.b) == old(len(b.b)) + 4 && be32(b.b, old(len(b.b))) == v && b.off == old(b.off) && b.Err == old(b.Err)
 //@   ensures samearray(b.b, old(b.b)) || fresh(b.b)
@@ -340,7 +340,7 @@ package sshfx
 
 //@ func (*Buffer).AppendUint64
 //@   property C06
-//@   content C06
+//@   content
 //@   requires b != nil
 //@   ensures len(b.b) == old(len(b.b)) + 8 && be64(b.b, old(len(b.b))) == v && b.off == old(b.off) && b.Err == old(b.Err)
 //@   ensures samearray(b.b, old(b.b)) || fresh(b.b)
@@ -349,7 +349,7 @@ package sshfx
 
 //@ func (*Buffer).AppendByteSlice
 //@   property C06
-//@   content C06
+//@   content
 //@   requires b != nil && !samearray(v, b.b)
 //@   ensures len(b.b) == old(len(b.b)) + 4 + len(v) && be32(b.b, old(len(b.b))) == uint32(len(v)) && b.off == old(b.off) && b.Err == old(b.Err)
 //@   ensures samearray(b.b, old(b.b)) || fresh(b.b)
@@ -359,7 +359,7 @@ package sshfx
 
 //@ func (*Buffer).AppendString
 //@   property C06
-//@   content C06
+//@   content
 //@   requires b != nil
 //@   ensures len(b.b) == old(len(b.b)) + 4 + len(v) && be32(b.b, old(len(b.b))) == uint32(len(v)) && b.off == old(b.off) && b.Err == old(b.Err)
 //@   ensures samearray(b.b, old(b.b)) || fresh(b.b)
@@ -369,7 +369,7 @@ package sshfx
 
 //@ func (*Buffer).StartPacket
 //@   property C06
-//@   content C06
+//@   content
 //@   requires b != nil
 //@   ensures len(b.b) == 9 && b.b[4] == uint8(packetType) && be32(b.b, 5) == requestID && b.off == 0 && b.Err == nil
 //@   ensures samearray(b.b, old(b.b)) || fresh(b.b)
@@ -377,7 +377,7 @@ package sshfx
 
 //@ func (*Buffer).PutLength
 //@   property C06
-//@   content C06
+//@   content
 //@   requires b != nil && len(b.b) >= 4
 //@   ensures b.b == old(b.b) && b.off == old(b.off) && b.Err == old(b.Err)
 //@   ensures be32(b.b, 0) == uint32(size)
@@ -386,7 +386,7 @@ package sshfx
 
 //@ func (*Buffer).Packet
 //@   property C06
-//@   content C06
+//@   content
 //@   requires b != nil && len(b.b) >= 4
 //@   ensures err == nil && payloadPassThru == payload && header == b.b && len(header) == old(len(b.b))
 //@   ensures be32(header, 0) == uint32(len(header) - 4 + len(payload))
@@ -410,7 +410,7 @@ package sshfx
 
 
 def sshfx_packet(st, typ, fields):
-    L = ["//@ func (*%s).MarshalPacket" % st, "//@   property C06", "//@   content C06", "//@   results header, payloadOut, err"]
+    L = ["//@ func (*%s).MarshalPacket" % st, "//@   property C06", "//@   content", "//@   results header, payloadOut, err"]
     req = ["p != nil"]
     for k, f in fields:
         if k == "str":
@@ -488,7 +488,7 @@ EXTRA_SFTP = r'''
 
 //@ func (*sshFxpStatResponse).marshalPacket
 //@   property C06
-//@   content C06
+//@   content
 //@   results out, payload, err
 //@   requires p != nil && p.info != nil
 //@   ensures err == nil && len(out) == 9 && out[4] == 105 && be32(out, 5) == p.ID
@@ -511,7 +511,7 @@ def main():
     # the shared helper of the (id, string) packets
     out += ["//@ func marshalIDStringPacket",
             "//@   property C06",
-            "//@   content C06",
+            "//@   content",
             "//@   results out, err",
             "//@   requires len(str) <= %s" % MAXSTR,
             "//@   ensures err == nil",
